@@ -47,6 +47,9 @@ def _corpus(pid: str):
     only = os.environ.get("HMSLINT_SELFTEST_ONLY")  # development aid: run the variants whose id contains this text
     if only:
         out = [v for v in out if only in v["id"]]
+    if os.environ.get("HMSLINT_SELFTEST_HAND_ONLY") == "1":
+        # development aid: only the hand-written corpus (the independent changes are covered by tools/seed_expect.py / twin_expect.py)
+        out = [v for v in out if not v["id"].startswith(("seeded:", "twin:"))]
     return out
 
 
